@@ -8,6 +8,7 @@ import GA.Drv.HexE
 import GA.Drv.HeapE
 import GA.Drv.SerdeE
 import GA.Drv.CmpE
+import GA.Drv.FillE
 open GA.Drv
 
 def answerLine (line : String) : String :=
@@ -27,6 +28,7 @@ def answerLine (line : String) : String :=
       | "heap" => HeapE.answer kv
       | "serde" => SerdeE.answer kv
       | "cmp" => CmpE.answer kv
+      | "fill" => FillE.answer kv
       | _ => "bad-engine"
     s!"{seq} {body}"
   | _ => "bad-line"
